@@ -1,3 +1,18 @@
 #!/usr/bin/env bash
-# extra builds of setup (back ends, sanitizer builds) - filled in as the legs are added
-exit 0
+# Extra builds of `./check setup`: everything the quick checks would otherwise build on first use (offline, from files
+# on disk only). Each check rebuilds incrementally from /repo's working tree anyway; this only warms the caches.
+set -u
+VERIF="$(cd "$(dirname "${BASH_SOURCE[0]}")/.." && pwd)"
+H="$VERIF/harness"
+cd "$H" || exit 2
+export CARGO_NET_OFFLINE=true
+rc=0
+step() { echo "[setup] $*" >&2; "$@" >/dev/null 2>&1 || { echo "[setup] FAILED: $*" >&2; rc=1; }; }
+step cargo build --offline --release -p vprobe
+step cargo build --offline --release -p vcustom
+for be in dashu malachite num_bigint; do
+    step cargo build --offline --release -p vmon --no-default-features --features "par,b_$be" --target-dir "$H/target/b_$be"
+done
+step cargo build --offline --release -p vmon --no-default-features --features b_ibig --target-dir "$H/target/nopar"
+RUSTFLAGS="-Zsanitizer=thread" step cargo +nightly build --offline --release -Zbuild-std --target x86_64-unknown-linux-gnu -p vmon --target-dir "$H/target/tsan"
+exit $rc
